@@ -29,6 +29,12 @@ from sim.seams import FsSeam, warnings_mode
 
 ENGINE = 'fsx'
 PROPERTY = 'C14'
+# DS9 serialisation orders the hoisted ``global`` keys by set iteration (R3 /
+# observation O1), so DS9 *texts* - and with them byte offsets quoted in
+# exception messages - differ between interpreters with different
+# PYTHONHASHSEED.  Under another hash seed the self-test therefore compares
+# the schedule digest (everything except message texts).
+HASHSEED_SENSITIVE = True
 
 FORMATS = ['ds9', 'crtf', 'fits']
 # written down from the format conventions, NOT read from the code under test
@@ -638,7 +644,12 @@ class Run:
 
     def result(self):
         digest = fpc([self.events, self.violations, self.known_hits])
+        sched = [[{k: (v[:2] if k == 'outcome' else v)
+                   for k, v in e.items()} for e in self.events],
+                 [[v['oracle'], v['step'], v['fmt']]
+                  for v in self.violations + self.known_hits]]
         return {'seed': self.plan['seed'], 'index': self.plan.get('index'),
+                'schedule_digest': fpc(sched),
                 'events': self.events, 'violations': self.violations,
                 'known_hits': self.known_hits, 'stats': self.stats,
                 'digest': digest}
